@@ -122,7 +122,7 @@ def run_case(case):
     variant = case["variant"]
     fault = case["fault"]
     props = {YowIqProtocolLayer.PROP_PING_INTERVAL: 0}
-    rig = TR.Rig(choices=case.get("choices", ()), upper=upper_layers(variant), props=props)
+    rig = TR.Rig(choices=case.get("choices", ()), upper=upper_layers(variant), props=props, preempt=case.get("preempt"))
     try:
         return _run(case, out, rig, variant, fault)
     finally:
@@ -444,8 +444,11 @@ def case_strategy():
             elif kind == "app_raises" and not incoming:
                 incoming.append("receipt")
         choices = draw(st.lists(st.integers(0, 7), min_size=0, max_size=draw(st.sampled_from([0, 10, 60, 200]))))
-        return {"sub": "fault", "variant": variant, "fault": fault, "tasks": tasks, "incoming": incoming, "choices": choices,
+        case = {"sub": "fault", "variant": variant, "fault": fault, "tasks": tasks, "incoming": incoming, "choices": choices,
                 "reconnect": draw(st.booleans())}
+        if not choices:
+            case["preempt"] = draw(st.lists(st.tuples(st.integers(150, 700), st.integers(0, 4)).map(list), min_size=0, max_size=3))
+        return case
     return build()
 
 
